@@ -4,6 +4,10 @@ modifier), and compared with the packing rules written down independently here."
 import interp as I
 
 
+def loc_type(i):
+    return I.Enum("TypeOrConstant", "Type", {"0": I.Enum("TypeId", None, {"0": i})})
+
+
 def tid(n):
     return I.Enum("TypeId", None, {"0": n})
 
@@ -119,8 +123,19 @@ class LayoutModel:
             return (l.fields.get("size"), l.fields.get("align"))
         return None
 
-    def check(self, globals_):
-        ip = I.Interp(self.facts, max_depth=12, extern=self.externs())
+    def check(self, globals_, typed=()):
+        """typed: [(Intrinsic variant, type id)] - instantiations of the typed load / store intrinsics in the function registry"""
+        ext = dict(self.externs())
+        if typed:
+            def deref(v):
+                return v.get() if isinstance(v, I.Ref) else v
+            some = lambda v: I.Enum("Option", "Some", {"0": v})
+            ext["FunctionRegistry::get_function_count"] = lambda a: len(typed) + 1
+            ext["FunctionRegistry::get_intrinsic_data"] = lambda a: (I.Enum("Option", "None") if deref(a[1]).fields["0"] >= len(typed) else
+                                                                    some(I.Enum("Intrinsic", typed[deref(a[1]).fields["0"]][0])))
+            ext["FunctionRegistry::get_template_instantiation_data"] = lambda a: some(I.Enum("FunctionTemplateInstantiation", None, {
+                "template_args": [loc_type(typed[deref(a[1]).fields["0"]][1])], "parent_id": I.Opaque("parent")}))
+        ip = I.Interp(self.facts, max_depth=12, extern=ext)
         try:
             r = ip.apply(self.cl, [self.module(globals_)])
         except I.Unknown as e:
